@@ -36,6 +36,9 @@ def harness_error(msg):
 def variant_bin(variant):
     if not variant:
         return BIN
+    if variant == "relcheck":
+        # same sources and features, other compiler configuration: debug assertions and overflow checks on
+        return os.path.join(VERIF, "target", "lazy", "relcheck", "lazysim")
     return os.path.join(VERIF, "target", "lazy-" + variant, "release", "lazysim")
 
 
@@ -48,7 +51,9 @@ def build(variant=None):
         harness_error("gen_shadow.py failed: " + r.stderr)
     log = os.path.join(VERIF, "logs", "build-lazysim%s.log" % ("-" + variant if variant else ""))
     cmd = ["cargo", "build", "--release", "--offline", "-p", "lazysim"]
-    if variant:
+    if variant == "relcheck":
+        cmd = ["cargo", "build", "--profile", "relcheck", "--offline", "-p", "lazysim"]
+    elif variant:
         cmd += ["--features", "decaf377/" + variant, "--target-dir", os.path.join(VERIF, "target", "lazy-" + variant)]
     with open(log, "w") as f:
         r = subprocess.run(cmd, cwd=LAZY, env=env, stdout=f, stderr=subprocess.STDOUT)
@@ -391,6 +396,13 @@ def main():
             jobs.append(dict(scheduler="random" if k % 2 == 0 else "pct", seed=val & 0x7FFFFFFFFFFFFFFF,
                              iters=max(100, iters // 4), threads=[2, 3, 4][k % 3], ops=[2, 3, 1][k % 3],
                              stack=0x40000, preflight=False, variant=v, cpus=cpus))
+    # the checked configuration (debug assertions and overflow checks on, as `cargo test` compiles the crate)
+    build("relcheck")
+    for k in range(6 if tier == "quick" else 32):
+        s, val = splitmix(s)
+        jobs.append(dict(scheduler="random" if k % 2 == 0 else "pct", seed=val & 0x7FFFFFFFFFFFFFFF,
+                         iters=max(100, iters // 2), threads=[2, 3, 4][k % 3], ops=[3, 2, 4][k % 3],
+                         stack=0x40000, preflight=(k == 0), variant="relcheck"))
     # the standing build under restricted affinity too (anything sized by the number of visible cores)
     for k, cpus in enumerate([c for c in (3, 1) if c <= ncpu]):
         s, val = splitmix(s)
@@ -555,6 +567,7 @@ def main():
             "lazy_cells_seen_by_stand_in": cells_seen,
             "raw_synchronisation_constructs_in_crate": raw[:10],
             "configuration_variants": {"extra_feature_builds": variants,
+                                       "children_of_checked_build": sum(1 for j in jobs if j.get("variant") == "relcheck"),
                                        "children_under_restricted_affinity": sum(1 for j in jobs if j.get("cpus")),
                                        "visible_core_counts": sorted(set(j["cpus"] for j in jobs if j.get("cpus")))},
             "simulated_time_note": "no clock in the crate; simulated time is the number of scheduling decisions (sim_steps)",
